@@ -39,6 +39,14 @@ type Owner struct {
 	Items []SItem `gorm:"foreignKey:OwnerID"`
 	Pet   *SPet   `gorm:"foreignKey:OwnerID"`
 	Tags  []STag  `gorm:"many2many:owner_tags"`
+	Marks []STag  `gorm:"many2many:owner_marks"` // through a join model that is itself soft-deleted (OwnerMark)
+}
+
+// OwnerMark is the join model of Owner.Marks: a link is a record with a soft-delete field of its own
+type OwnerMark struct {
+	OwnerID   int64 `gorm:"primaryKey"`
+	STagID    int64 `gorm:"primaryKey"`
+	DeletedAt gorm.DeletedAt
 }
 
 type SItem struct {
@@ -81,7 +89,10 @@ func initEnv(c *core.Ctx) {
 	if err != nil {
 		panic(err)
 	}
-	if err := h.DB.AutoMigrate(&SRow{}, &Owner{}, &SItem{}, &SPet{}, &SBoss{}, &STag{}); err != nil {
+	if err := h.DB.SetupJoinTable(&Owner{}, "Marks", &OwnerMark{}); err != nil {
+		panic(err)
+	}
+	if err := h.DB.AutoMigrate(&SRow{}, &Owner{}, &SItem{}, &SPet{}, &SBoss{}, &STag{}, &OwnerMark{}); err != nil {
 		panic(err)
 	}
 	H = h
@@ -557,7 +568,7 @@ type assocData struct {
 }
 
 func loadAssoc(r *core.Rand) assocData {
-	for _, t := range []string{"owners", "s_items", "s_pets", "s_bosses", "s_tags", "owner_tags"} {
+	for _, t := range []string{"owners", "s_items", "s_pets", "s_bosses", "s_tags", "owner_tags", "owner_marks"} {
 		_, err := H.SQL.Exec("DELETE FROM " + t)
 		must(err)
 	}
@@ -608,6 +619,9 @@ func loadAssoc(r *core.Rand) assocData {
 				d.liveTags[o] = append(d.liveTags[o], t)
 			}
 		}
+		// marks: owner o is linked to tag 1 and 2 by live links and to tag 3 by a link that is marked already
+		_, err = H.SQL.Exec("INSERT INTO owner_marks(owner_id,s_tag_id,deleted_at) VALUES (?,1,NULL),(?,2,NULL),(?,3,?)", o, o, o, delTime)
+		must(err)
 	}
 	return d
 }
@@ -693,6 +707,78 @@ func runAssocDelete(c *core.Ctx, path string, d assocData) (problems []string) {
 		if n := count("SELECT count(*) FROM "+table+" WHERE owner_id <> ?", o); n != other {
 			add("rows of other owners in %s changed: %d -> %d", table, other, n)
 		}
+	}
+	return
+}
+
+// runAssocMarks: association-mode Delete / Clear on a many-to-many relation whose links are soft-delete records:
+// scoped, a link is marked (and a link marked before keeps its mark); with Unscoped the link rows are removed
+// physically, marked or not. The tags themselves are never touched.
+func runAssocMarks(c *core.Ctx, path string, d assocData) (problems []string) {
+	add := func(f string, a ...interface{}) { problems = append(problems, fmt.Sprintf(f, a...)) }
+	count := func(q string, a ...interface{}) int64 { return vdb.Ints(H.SQL, q, a...)[0] }
+	const o = int64(1)
+	root := H.DB.Session(&gorm.Session{})
+	tagsBefore := count("SELECT count(*) FROM s_tags")
+	othersBefore := count("SELECT count(*) FROM owner_marks WHERE owner_id <> ?", o)
+	unscoped := strings.HasPrefix(path, "Unscoped")
+	// (Unscoped of the handle, db.Unscoped(): the statement's Unscoped. Association(..).Unscoped() is another switch,
+	// about the associated records, and not what is meant here)
+	if unscoped {
+		root = root.Unscoped()
+	}
+	as := root.Model(&Owner{ID: o}).Association("Marks")
+	var targets []int64
+	var err error
+	if strings.HasSuffix(path, "ClearMarks") {
+		targets = []int64{1, 2}
+		err = as.Clear()
+	} else {
+		// one live link, or (Unscoped only: the scoped call does not see it) the link marked before
+		targets = []int64{int64(1 + c.R.Intn(2))}
+		if unscoped && c.R.Intn(3) == 0 {
+			targets = []int64{3}
+		}
+		err = as.Delete(&STag{ID: targets[0]})
+	}
+	if err != nil {
+		add("error: %v", err)
+		return
+	}
+	for _, t := range targets {
+		rows := count("SELECT count(*) FROM owner_marks WHERE owner_id = ? AND s_tag_id = ?", o, t)
+		live := count("SELECT count(*) FROM owner_marks WHERE owner_id = ? AND s_tag_id = ? AND deleted_at IS NULL", o, t)
+		if unscoped && rows != 0 {
+			add("Unscoped %s: the link to tag %d is still stored (%d row, live: %d): want it removed physically", path, t, rows, live)
+		}
+		if !unscoped && (rows != 1 || live != 0) {
+			add("%s: the link to tag %d: %d row stored, %d live: want it stored and marked", path, t, rows, live)
+		}
+	}
+	if !unscoped {
+		if n := count("SELECT count(*) FROM owner_marks WHERE owner_id = ? AND s_tag_id = 3 AND deleted_at = ?", o, delTime); n != 1 {
+			add("%s: the link that was marked before did not keep its row and mark", path)
+		}
+	}
+	if strings.HasSuffix(path, "ClearMarks") && unscoped {
+		// (whether an Unscoped Clear also removes the link marked before is not fixed by the statement)
+	} else if !strings.HasSuffix(path, "ClearMarks") {
+		// the links not named stay as they were
+		for _, t := range []int64{1, 2, 3} {
+			named := false
+			for _, x := range targets {
+				named = named || x == t
+			}
+			if !named && count("SELECT count(*) FROM owner_marks WHERE owner_id = ? AND s_tag_id = ?", o, t) != 1 {
+				add("%s: the link to tag %d, which was not named, is gone", path, t)
+			}
+		}
+	}
+	if n := count("SELECT count(*) FROM s_tags"); n != tagsBefore {
+		add("%s changed the tags table (%d -> %d rows)", path, tagsBefore, n)
+	}
+	if n := count("SELECT count(*) FROM owner_marks WHERE owner_id <> ?", o); n != othersBefore {
+		add("%s changed links of other owners (%d -> %d)", path, othersBefore, n)
 	}
 	return
 }
@@ -1097,9 +1183,15 @@ func run(c *core.Ctx) {
 	}
 	// deleting an owner together with selected relations (last: it consumes the graph)
 	if r.Bool() {
-		p := core.Pick(r, []string{"DeleteSelectItems", "UnscopedDeleteSelectItems", "UnscopedDeleteSelectPet", "DeleteSelectPet", "UnscopedDeleteSelectBoth"})
+		p := core.Pick(r, []string{"DeleteSelectItems", "UnscopedDeleteSelectItems", "UnscopedDeleteSelectPet", "DeleteSelectPet", "UnscopedDeleteSelectBoth",
+			"AssocDeleteMarks", "UnscopedAssocDeleteMarks", "UnscopedAssocDeleteMarks", "UnscopedAssocClearMarks", "AssocClearMarks"})
 		c.Logf("ASSOC %s", p)
-		problems := runAssocDelete(c, p, d)
+		var problems []string
+		if strings.Contains(p, "Marks") {
+			problems = runAssocMarks(c, p, d)
+		} else {
+			problems = runAssocDelete(c, p, d)
+		}
 		c.Inc("assoc_paths")
 		c.Inc("path_" + p)
 		if len(problems) > 0 {
